@@ -59,45 +59,48 @@ def parse_expr(s):
     return out, int(c)
 
 
-def export_symdata(path):
+def group_rows(sg):
+    """the live table rows of one group, as the specs read them"""
     from matid.data.symmetry_data import (CHIRALITY_PRESERVING_EUCLIDEAN_NORMALIZERS, SPACE_GROUP_INFO,
                                           WYCKOFF_SETS)
 
-    groups = []
-    for sg in range(1, 231):
-        info = SPACE_GROUP_INFO.get(sg, {})
-        ws = WYCKOFF_SETS.get(sg, {})
-        tr = np.array(ws.get("translations", [])).reshape(-1, 3)
-        letters = sorted(k for k in ws if k != "translations")
-        positions = []
-        for l in letters:
-            v = ws[l]
-            exprs = v["expressions"]
-            pm, pc = [], []
-            for e in exprs:
-                rows = [parse_expr(c) for c in e]  # component j: (coefs over x,y,z, const)
-                # column form: p = M.W + c with M[j][i] = coefficient of variable i in component j
-                pm.append([[rows[j][0][i] for i in range(3)] for j in range(3)])
-                pc.append([rows[j][1] for j in range(3)])
-            mats = np.asarray(v["matrices"], dtype=float)
-            cons = np.asarray(v["constants"], dtype=float)
-            # numeric convention: pos_row = W_row @ Mnum + C  ->  column form M[j][i] = Mnum[i][j]
-            nm = [[[gint(mats[e][i][j]) for i in range(3)] for j in range(3)] for e in range(mats.shape[0])]
-            nc = [[grid(cons[e][j]) for j in range(3)] for e in range(cons.shape[0])]
-            positions.append({"letter": l, "vars": sorted(v["variables"]), "pm": pm, "pc": pc, "nm": nm, "nc": nc,
-                              "nexpr": len(exprs)})
-        norms = []
-        for n in CHIRALITY_PRESERVING_EUCLIDEAN_NORMALIZERS.get(sg, []):
-            T = np.asarray(n["transformation"], dtype=float)
-            perm = n["permutations"]
-            norms.append({"A": [[gint(T[i][j]) for j in range(3)] for i in range(3)],
-                          "t": [grid(T[i][3]) for i in range(3)],
-                          "last": [gint(T[3][j]) for j in range(4)],
-                          "pfrom": sorted(perm.keys()), "pto": [perm[k] for k in sorted(perm.keys())]})
-        groups.append({"sg": sg, "bravais": info.get("bravais_lattice", "?"), "system": info.get("crystal_system", "?"),
-                       "pointgroup": info.get("pointgroup", "?"),
-                       "trans": [[grid(x) for x in t] for t in tr], "letters": letters, "pos": positions,
-                       "norms": norms})
+    info = SPACE_GROUP_INFO.get(sg, {})
+    ws = WYCKOFF_SETS.get(sg, {})
+    tr = np.array(ws.get("translations", [])).reshape(-1, 3)
+    letters = sorted(k for k in ws if k != "translations")
+    positions = []
+    for l in letters:
+        v = ws[l]
+        exprs = v["expressions"]
+        pm, pc = [], []
+        for e in exprs:
+            rows = [parse_expr(c) for c in e]  # component j: (coefs over x,y,z, const)
+            # column form: p = M.W + c with M[j][i] = coefficient of variable i in component j
+            pm.append([[rows[j][0][i] for i in range(3)] for j in range(3)])
+            pc.append([rows[j][1] for j in range(3)])
+        mats = np.asarray(v["matrices"], dtype=float)
+        cons = np.asarray(v["constants"], dtype=float)
+        # numeric convention: pos_row = W_row @ Mnum + C  ->  column form M[j][i] = Mnum[i][j]
+        nm = [[[gint(mats[e][i][j]) for i in range(3)] for j in range(3)] for e in range(mats.shape[0])]
+        nc = [[grid(cons[e][j]) for j in range(3)] for e in range(cons.shape[0])]
+        positions.append({"letter": l, "vars": sorted(v["variables"]), "pm": pm, "pc": pc, "nm": nm, "nc": nc,
+                          "nexpr": len(exprs)})
+    norms = []
+    for n in CHIRALITY_PRESERVING_EUCLIDEAN_NORMALIZERS.get(sg, []):
+        T = np.asarray(n["transformation"], dtype=float)
+        perm = n["permutations"]
+        norms.append({"A": [[gint(T[i][j]) for j in range(3)] for i in range(3)],
+                      "t": [grid(T[i][3]) for i in range(3)],
+                      "last": [gint(T[3][j]) for j in range(4)],
+                      "pfrom": sorted(perm.keys()), "pto": [perm[k] for k in sorted(perm.keys())]})
+    return {"sg": sg, "bravais": info.get("bravais_lattice", "?"), "system": info.get("crystal_system", "?"),
+            "pointgroup": info.get("pointgroup", "?"),
+            "trans": [[grid(x) for x in t] for t in tr], "letters": letters, "pos": positions,
+            "norms": norms}
+
+
+def export_symdata(path):
+    groups = [group_rows(sg) for sg in range(1, 231)]
     json.dump(groups, open(path, "w"))
     return groups
 
